@@ -36,6 +36,8 @@ struct Spelling {
     /// the name the certificate must be checked against ("dns:<lower-case name>" / "ip:<canonical address>" / "any")
     exp_verify: String,
     host_header: String,
+    /// host + port exactly as in the URI: the previous request of a history goes to the same authority
+    authority: String,
     scheme_sp: String,
     wiring: String,
     trunc: usize,
@@ -121,11 +123,12 @@ fn spell(v: &Value, sp: usize, rng: &mut rand::rngs::StdRng) -> Spelling {
     };
     let path = ["/", "/p?q=1", ""][pick(3, rng)];
     let uri = format!("{scheme_sp}://{host}{port}{path}");
+    let authority = format!("{host}{port}");
     // a Host header naming somebody else: the server name must come from the URI, not from here
     let host_header = ["decoy.test", "", "verif.test"][if sp == 0 { 0 } else { rng.gen_range(0..3) }].to_string();
     let wiring = ["new+with_tls", "ext.with_tls", "ext.with_optional_tls"][pick(3, rng)].to_string();
     let trunc = [40usize, 1, 5, 200, 700][pick(5, rng)];
-    Spelling { uri, host, host_name, exp_verify, host_header, scheme_sp, wiring, trunc }
+    Spelling { uri, host, host_name, exp_verify, host_header, authority, scheme_sp, wiring, trunc }
 }
 
 fn calpn(v: &Value) -> Vec<&'static str> {
@@ -180,6 +183,12 @@ fn run_vector(ctx: &mut Ctx, id: usize, v: &Value, spx: usize, seed: u64) -> Val
     let scfg = ctx.server_cfg(v);
     let (ccfg, asked) = ctx.certs.client_config(&calpn(v));
     let tls_on = s(v, "wrapper") == "tls";
+    let prev = v.get("prev").and_then(|x| x.as_str()).unwrap_or("none").to_string();
+    let hist = v.get("hist").and_then(|x| x.as_str()).unwrap_or("idle").to_string();
+    let prev_marker = format!("PREV-{id}-{spx}-c12verif");
+    let prev_result = Arc::new(Mutex::new(String::new()));
+    let conns_before = Arc::new(Mutex::new(0usize));
+    let asked_before = Arc::new(Mutex::new(0usize));
     let log: PeerLog = Arc::new(Mutex::new(Vec::new()));
 
     let _ = take_panics();
@@ -258,14 +267,63 @@ fn run_vector(ctx: &mut Ctx, id: usize, v: &Value, spx: usize, seed: u64) -> Val
                     .with_default_pool();
                 let b = if tls_on { b.with_tls(ccfg) } else { b.without_tls() };
                 let mut client = b.build();
+                let h2 = hist == "inflight";
+                let rb = if h2 { rb.version(http::Version::HTTP_2) } else { rb };
                 // the marker travels in the request head; the path keeps the spelling's path
                 let req = rb.header("x-marker", marker.as_str()).body(hyperdriver::Body::from(marker.clone())).expect("request");
+                // HISTORY: a previous request to the same authority on the same pooled client
+                let mut prev_task = None;
+                if prev != "none" {
+                    let puri = format!("{prev}://{}/{}", sp.authority, if h2 { "hold-prev" } else { "prev" });
+                    let mut pb = http::Request::builder().method("GET").uri(puri.as_str()).header("x-marker", prev_marker.as_str());
+                    if h2 {
+                        pb = pb.version(http::Version::HTTP_2);
+                    }
+                    let preq = pb.body(hyperdriver::Body::empty()).expect("previous request");
+                    let pfut = client.request(preq);
+                    let run_prev = async move {
+                        match guarded(async move {
+                            let resp = pfut.await?;
+                            use http_body_util::BodyExt;
+                            let _ = resp.into_body().collect().await;
+                            Ok::<_, hyperdriver::client::Error>(())
+                        })
+                        .await
+                        {
+                            Ok(Ok(())) => "ok".to_string(),
+                            Ok(Err(e)) => format!("error: {e}"),
+                            Err(()) => "panic".to_string(),
+                        }
+                    };
+                    if h2 {
+                        // still in flight when the request under test is issued: the peer holds `/hold-` requests for
+                        // one second of (paused) time, which only passes when everything else is idle
+                        prev_task = Some(tokio::spawn(run_prev));
+                        tokio::time::sleep(Duration::from_millis(1)).await;
+                    } else {
+                        // completed and fully read; settling lets the connection go back to the pool as idle
+                        let r = tokio::time::timeout(Duration::from_secs(5), run_prev).await.unwrap_or_else(|_| "hang".to_string());
+                        *prev_result.lock().unwrap() = r;
+                        tokio::time::sleep(Duration::from_millis(1)).await;
+                    }
+                    *conns_before.lock().unwrap() = log.lock().unwrap().len();
+                    *asked_before.lock().unwrap() = asked.lock().unwrap().len();
+                }
+                let prev_result2 = prev_result.clone();
                 let fut = async move {
                     let resp = client.request(req).await?;
                     let status = resp.status().as_u16();
                     let ver = format!("{:?}", resp.version());
                     use http_body_util::BodyExt;
                     let body = resp.into_body().collect().await.map(|c| c.to_bytes().len()).unwrap_or(0);
+                    if let Some(t) = prev_task {
+                        let r = match tokio::time::timeout(Duration::from_secs(5), t).await {
+                            Ok(Ok(r)) => r,
+                            Ok(Err(_)) => "panic".to_string(),
+                            Err(_) => "hang".to_string(),
+                        };
+                        *prev_result2.lock().unwrap() = r;
+                    }
                     drop(client);
                     Ok::<_, hyperdriver::client::Error>((status, ver, body))
                 };
@@ -327,7 +385,24 @@ fn run_vector(ctx: &mut Ctx, id: usize, v: &Value, spx: usize, seed: u64) -> Val
     let mut peer_err: Vec<String> = Vec::new();
     let mut peer_alpn: Option<String> = None;
     let mut reqs: Vec<String> = Vec::new();
-    for c in &conns {
+    // the connection that carried the request under test, and whether the previous request travelled on it too
+    let carrier_idx = conns.iter().position(|c| contains(&c.app, mb) || c.reqs.iter().any(|r| r.contains(marker.as_str())));
+    let shared_prev = prev != "none"
+        && carrier_idx.map_or(false, |i| conns[i].reqs.iter().any(|r| r.contains(prev_marker.as_str())));
+    let prev_carrier = conns
+        .iter()
+        .find(|c| c.reqs.iter().any(|r| r.contains(prev_marker.as_str())))
+        .map(|c| if c.hs_done { "tls" } else { "plain" })
+        .unwrap_or("none");
+    let n_before = *conns_before.lock().unwrap();
+    for (ci, c) in conns.iter().enumerate() {
+        if contains(&c.raw, mb) {
+            marker_raw = true;
+        }
+        // the previous request's own connections count only if the request under test travelled on them
+        if ci < n_before && Some(ci) != carrier_idx {
+            continue;
+        }
         match first_class(&c.first) {
             "plain" => plain_first = true,
             "tls" => tls_first = true,
@@ -338,9 +413,6 @@ fn run_vector(ctx: &mut Ctx, id: usize, v: &Value, spx: usize, seed: u64) -> Val
             if !snis.contains(&n) {
                 snis.push(n);
             }
-        }
-        if contains(&c.raw, mb) {
-            marker_raw = true;
         }
         if contains(&c.app, mb) || c.reqs.iter().any(|r| r.contains(marker.as_str())) {
             carrier = if c.hs_done { "tls" } else { "plain" };
@@ -355,7 +427,9 @@ fn run_vector(ctx: &mut Ctx, id: usize, v: &Value, spx: usize, seed: u64) -> Val
         reqs.extend(c.reqs.iter().cloned());
     }
     let mut verified: Vec<String> = Vec::new();
-    for a in asked.lock().unwrap().iter() {
+    // names checked for the previous request's connection count only if the request under test travelled on it
+    let skip = if shared_prev { 0 } else { *asked_before.lock().unwrap() };
+    for a in asked.lock().unwrap().iter().skip(skip) {
         let a = a.to_ascii_lowercase();
         if !verified.contains(&a) {
             verified.push(a);
@@ -379,6 +453,10 @@ fn run_vector(ctx: &mut Ctx, id: usize, v: &Value, spx: usize, seed: u64) -> Val
     obs["plainFirst"] = json!(plain_first);
     obs["tlsFirst"] = json!(tls_first);
     obs["markerRaw"] = json!(marker_raw);
+    obs["sharedPrev"] = json!(shared_prev);
+    obs["prevResult"] = json!(if prev == "none" { "none".to_string() } else { prev_result.lock().unwrap().clone() });
+    obs["prevCarrier"] = json!(prev_carrier);
+    obs["connsBefore"] = json!(n_before);
     obs["carrier"] = json!(carrier);
     obs["snis"] = json!(snis);
     obs["verified"] = json!(verified);
@@ -405,7 +483,7 @@ fn run_vector(ctx: &mut Ctx, id: usize, v: &Value, spx: usize, seed: u64) -> Val
     json!({
         "e": "Vec", "id": id, "spx": spx, "v": v_without_exp(v),
         "sp": {"uri": sp.uri, "host": sp.host, "hostName": sp.host_name, "expVerify": sp.exp_verify, "hostHeader": sp.host_header,
-               "schemeSp": sp.scheme_sp, "wiring": sp.wiring, "trunc": sp.trunc, "marker": marker},
+               "schemeSp": sp.scheme_sp, "authority": sp.authority, "wiring": sp.wiring, "trunc": sp.trunc, "marker": marker},
         "exp": v.get("exp").cloned().unwrap_or(json!({})),
         "expAsBuilt": v.get("expAsBuilt").cloned().unwrap_or(json!({})),
         "obs": obs,
